@@ -251,6 +251,15 @@ def _first_evaluated(body, name):
             return False
 
 
+def _pure_position(expr, p, arg):
+    from .canon import effect_free, _UseOrder
+    if not effect_free(arg):
+        return False
+    uo = _UseOrder(p)
+    uo.ev(expr)
+    return len(uo.uses) == 1 and all(u and b for _, u, b in uo.uses)
+
+
 class CannotEliminate(Exception):
     pass
 
@@ -469,6 +478,8 @@ def _inline_in(fn, cls, helpers, done):
                 uses = _uses([ast.Expr(value=h.expr)], p)
                 if _simple_arg(a) or uses == 0 and _simple_arg(a):
                     mapping[p] = a
+                elif uses == 1 and _pure_position(h.expr, p, a):
+                    mapping[p] = a          # an effect-free argument evaluated once, unconditionally, before any effect of the body
                 elif uses == 1 and not _in_repeated_context([ast.Expr(value=h.expr)], p):
                     nontrivial += 1
                     mapping[p] = a
